@@ -24,6 +24,13 @@ def p_field(x):
     r2 = deps.parse_depends(str(r))
     if _deps.rel_tree(r2) != _deps.rel_tree(r) or r2 != r:
         return 'str form %r parses back to a different object' % str(r)
+    for grp, want_g in zip(r.relationships, G.tree(f)[1]):
+        try:
+            a = deps.parse_alternatives(str(grp))
+        except Exception as e:  # noqa
+            return 'parse_alternatives(%r) raises %s' % (str(grp), type(e).__name__)
+        if _deps.rel_tree(a) != want_g or a != grp:
+            return 'parse_alternatives(%r) = %r, the group is %r' % (str(grp), _deps.rel_tree(a), want_g)
     if sorted(r.names) != G.names(f) or not isinstance(r.names, set):
         return 'names %r, mentioned %r' % (sorted(r.names), G.names(f))
     # reading the names of the whole field changes nothing about its members: each group and each alternative
